@@ -1092,6 +1092,17 @@ func (broker *Broker) startTrack(wg *sync.WaitGroup) {
 			return
 		}
 		log.Debug("Track loop ...")
+		if in == nil {
+			// The input is closed, so nothing more can arrive.  Files that are
+			// still incomplete here (their remaining parts were dropped because
+			// the file changed) can never complete and would keep us waiting
+			// forever; they are picked up again as changed files.
+			for key, pFile := range progress {
+				if pFile.sent < pFile.size {
+					delete(progress, key)
+				}
+			}
+		}
 		// Block by default
 		wait = nil
 		if len(progress) == 0 {
